@@ -199,6 +199,78 @@ harness("c20.hist", prop="C20", traced=(), horizon=80, params=_params())(body)
 oracle("c20.hist")(check)
 
 
+# ------------------------------------------------------------------ two executors sharing one name
+def tbody(mc, p):
+    """Two live executors of the same kind with the same name share their metric series: every gauge
+    must equal the SUM over both of what is really pending / alive / queued."""
+    prom.reset()
+    kind = p["kind"]
+    sts = [dict(polls=0, poll_errors=0), dict(polls=0, poll_errors=0)]
+    bases = [ManualExecutor(mc, mode="hold", forget=False, label="b%d" % k) for k in (0, 1)]
+    exs = [make(kind, bases[k], sts[k]) for k in (0, 1)]
+    fs = [[], []]
+    down = [False, False]
+    history = []
+    for step in range(p["depth"]):
+        choices = ["stop"]
+        for k in (0, 1):
+            if down[k]:
+                continue
+            choices.append("submit%d" % k)
+            if any(not f.done() for f in fs[k]):
+                choices.append("cancel%d" % k)
+            if any(it.state == "queued" and it.future is not None and not it.future.done() for it in bases[k].items):
+                choices.append("run%d" % k)
+            choices.append("shutdown%d" % k)
+        ev = choices[mc.choose(len(choices))]
+        if ev == "stop":
+            break
+        history.append(ev)
+        k = int(ev[-1])
+        if ev.startswith("submit"):
+            fs[k].append(exs[k].submit(lambda: "v"))
+        elif ev.startswith("cancel"):
+            [f for f in fs[k] if not f.done()][-1].cancel()
+        elif ev.startswith("run"):
+            it = [it for it in bases[k].items if it.state == "queued" and it.future is not None and not it.future.done()][0]
+            bases[k].complete(it.idx, "v")
+        else:
+            exs[k].shutdown(wait=False)
+            down[k] = True
+        mc.sleep(0.25)
+        mc.emit("q", ev=ev,
+                pending=sum(1 for k2 in (0, 1) for f in fs[k2] if not f.done()),
+                future_inprogress=val("future_inprogress", type=kind, executor="n"),
+                alive=sum(1 for d in down if not d), exec_inprogress=val("exec_inprogress", type=kind, executor="n"),
+                tq=sum(len(getattr(e, "_to_submit", ())) for e in exs) if kind == "throttle" else 0,
+                throttle_queue=val("throttle_queue", executor="n"),
+                jq=sum(len(getattr(e, "_jobs", ())) for e in exs) if kind == "retry" else 0,
+                retry_queue=val("retry_queue", executor="n"))
+    negatives = sorted("%s%r" % k for k, v in prom.MINIMUM.items() if v < 0)
+    mc.observe(history=tuple(history), negatives=tuple(negatives))
+    for k in (0, 1):
+        if not down[k]:
+            exs[k].shutdown(wait=False)
+
+
+def tcheck(x):
+    if not x.require(x.end == "done" and "history" in x.obs, "bad-ending", end=x.end):
+        return
+    kind = x.p["kind"]
+    h = "/".join(x.obs["history"])
+    x.require(not x.obs["negatives"], "gauge-went-negative", kind=kind, series=";".join(x.obs["negatives"])[:120], detail=h)
+    for e in x.events("q"):
+        for gauge, real in (("future_inprogress", "pending"), ("exec_inprogress", "alive"), ("throttle_queue", "tq"),
+                            ("retry_queue", "jq")):
+            x.require(e[gauge] == e[real], "shared-name-gauge-wrong", kind=kind, gauge=gauge,
+                      detail="after %s: gauge %r, really %r (history %s)" % (e["ev"], e[gauge], e[real], h))
+
+
+harness("c20.twins", prop="C20", traced=(), horizon=80,
+        params=[dict(kind=k, depth=d) for k in ("throttle", "retry", "timeout") for d in (4, 5)])(tbody)
+oracle("c20.twins")(tcheck)
+
+
 # ------------------------------------------------------------------ concurrent histories
 def _cparams():
     out = []
@@ -431,7 +503,9 @@ oracle("c20.comb")(kcheck)
 
 PLAN = {
     "quick": [dict(harness="c20.hist", bound=0, select=lambda p: p["depth"] == 5), dict(harness="c20.conc", bound=1),
-              dict(harness="c20.conc.lines", bound=1), dict(harness="c20.comb", bound=0), dict(harness="c20.slowcancel", bound=1)],
+              dict(harness="c20.conc.lines", bound=1), dict(harness="c20.comb", bound=0), dict(harness="c20.slowcancel", bound=1),
+              dict(harness="c20.twins", bound=0, select=lambda p: p["depth"] == 4)],
     "thorough": [dict(harness="c20.hist", bound=0, select=lambda p: p["depth"] == 6), dict(harness="c20.conc", bound=2),
-                 dict(harness="c20.conc.lines", bound=2), dict(harness="c20.comb", bound=0), dict(harness="c20.slowcancel", bound=2)],
+                 dict(harness="c20.conc.lines", bound=2), dict(harness="c20.comb", bound=0), dict(harness="c20.slowcancel", bound=2),
+                 dict(harness="c20.twins", bound=0, select=lambda p: p["depth"] == 5)],
 }
